@@ -148,3 +148,28 @@ PROPS['C08'] = dict(
                        'handled:icmp4.ProcessPacket': 500, 'handled:Process8023Frame': 500}, 'thorough': {'decoder_calls': 20000}},
     timeout={'quick': 1200, 'thorough': 8*3600},
 )
+
+PROPS['C17'] = dict(
+    runs=[run('plain')], shards=16, watchdog=True, level='exploration',
+    rule=('DNS responses built from generated names (1..127 labels of 1..63 bytes, total <= 250) and record sets (A/AAAA/CNAME/PTR/MX/TXT in the answer '
+          'section, NS/A in authority/additional) by three builders (refdec plain, refdec with RFC 1035 compression, x/net dnsmessage.Pack): after '
+          'ProcessDNS the entry returned by DNSFind(question) must hold exactly the distinct A, AAAA, CNAME, PTR records of the answer section; nine kinds '
+          'of ill-formed messages (self pointer, pointer beyond the message, two-step pointer loop, label > 63, label running off the end, RDLENGTH too '
+          'long, truncated record header, truncated name, answer count too high) must be rejected; mDNS responses with A/AAAA/PTR/NSEC/TXT in every '
+          'section: ProcessMDNS must return exactly the A/AAAA names (minus .local) and addresses; NBNS node status arrays with unique and group names in '
+          'every order: ProcessNBNS must return the first unique name; NameEntry.Merge exhaustively over (empty,a,b)^4 x same against its three laws and '
+          'PRNG update sequences from the five sources on a tracked host (Dirty flag). Ground truth = what the builders put in. '
+          'Non-trivial = a compared message / merge; distinct = (builder, label-count bucket, record kinds present) etc.'),
+    assumptions=['ground truth is the builder input; refdec.ParseDNS double-checks that each generated message is well-formed (or ill-formed) as intended',
+                 'PTR records are generated only for IPv4 in-addr.arpa owners in the deciding stream', 'the NetBIOS suffix byte is not part of the compared name'],
+    min_obs={'quick': {'dns_records_compared': 20000, 'mdns_entries_compared': 5000, 'nbns_names_compared': 1000, 'illformed_rejected': 1000}, 'thorough': {'dns_records_compared': 20000}},
+    timeout={'quick': 900, 'thorough': 6*3600},
+)
+META['C17'] = dict(
+    technique='runtime differential monitoring: messages from three independent DNS builders vs what the naming handler stores/returns; algebraic law checking of Merge',
+    level_text='Exploration (merge algebra exhaustive over 3^4 x 3^4 attribute vectors): ~6*10^4 (quick) / ~3*10^6 (thorough) generated DNS/mDNS/NBNS messages processed by the real handlers and compared record by record with the builder ground truth; ill-formed names must be rejected.',
+    level_note='Trusted base: refdec DNS builder/parser and x/net dnsmessage (cross-checked against each other in the self-test).')
+META['C08'] = dict(
+    technique='runtime monitoring: recover + CPU-time hang watchdog over killable worker processes running the real handlers on protocol-aware mutated traffic',
+    level_text='Exploration: ~4*10^5 (quick) / ~2*10^7 (thorough) frames and decoder inputs dispatched exactly as the documented packet loop does; a panic, fatal error or a case burning >= 5 CPU-seconds refutes.',
+    level_note='A returned error is acceptable. Trusts the watchdog criterion and the generators (handler entry counts in the evidence show what was reached).')
